@@ -5,6 +5,7 @@ mod record_sampler;
 mod replay_kernels;
 mod replay_lattice;
 mod replay_nuts;
+mod replay_stepsize;
 mod replay_storage;
 
 fn main() {
@@ -18,6 +19,7 @@ fn main() {
         "record-chains" => record::main(rest),
         "record-sampler" => record_sampler::main(rest),
         "fault-sweep" => fault_sweep::main(rest),
+        "replay-stepsize" => replay_stepsize::main(rest),
         "replay-storage" => replay_storage::main(rest),
         _ => {
             eprintln!("usage: vh <replay-nuts|...> args");
